@@ -480,6 +480,14 @@ def gen_C16(rng, tier):
         sub = sorted(rng.sample(range(n), rng.randint(1, n)))
         scn["procs"].append({"xp": "x0", "plan": simple_plan(rng, n, subset=sub, waits=False),
                              "start": {"after_steps": rng.randint(0, 200)}})
+    # runs in another run mode (dry run: no lock, nothing prepared; generate-only: lock taken, job
+    # folders prepared, nothing scheduled): they must leave both indexes as they found them
+    r2 = random.Random(repr(rng.getstate()[1][:4]))
+    if r2.random() < 0.35:
+        for spec in scn["procs"][1:nruns]:
+            if "crash" not in spec and r2.random() < 0.5:
+                spec["mode"] = r2.choice(["generate", "generate", "dry"])
+                spec["plan"] = [op for op in spec["plan"] if op[0] in ("submit", "raise", "xpwait")]
     return scn
 
 
@@ -573,6 +581,13 @@ def gen_C19(rng, tier):
         scn["procs"].append(spec)
     maybe_trace(rng, scn, 0.3 if concurrent else 0.0)
     scn["cfg"]["readdir_shuffle"] = rng.random() < 0.4
+    # tasks that keep their own stage files in the job directory, named like the runner's markers
+    # (separate generator: the scenarios of earlier versions stay what they were)
+    r2 = random.Random(repr(rng.getstate()[1][:4]))
+    if r2.random() < 0.3:
+        for t in scn["tasks"]:
+            if r2.random() < 0.5:
+                t["stagefiles"] = r2.choice([["stage1.done"], ["part0.failed"], ["stage1.done", "part0.failed"], ["old.pid"]])
     return scn
 
 
